@@ -28,6 +28,13 @@ class Program:
             for k, b in doc["fns"].items():
                 b["crate"] = name
                 b["key"] = k
+                # parameter names are not part of a function's meaning: canonical names a0, a1, ... (`self` cannot be renamed and is kept),
+                # so that no rule depends on what a parameter happens to be called
+                for i in range(b.get("argc", 0)):
+                    l = b["locals"][i + 1]
+                    if l.get("n") != "self":
+                        l["src_n"] = l.get("n")
+                        l["n"] = f"a{i}"
                 if k in self.fns and name.endswith("-bin"):
                     k = name + "!" + k
                 self.fns[k] = b
